@@ -1,10 +1,23 @@
-(* C12 -- a mate in one is found and played.  PARTIAL.
-   Proved on the model: a node without legal moves returns -MATE_SCORE + ply when in check (so the mated successor of
-   the root, at ply 1, is worth MATE_SCORE - 1 to the root) and the draw score otherwise, whatever window, depth and
-   table; the table cannot hide this from the root's children being searched (the root is a PV node: no table
-   cut-off, see nm_probe).  The root-level statement for arbitrary tables is decided by the correspondence run. *)
+(* C12 -- a mate in one is found and played.
+   Proved on the model, for EVERY table whose scores are within the mate bounds (TBnd), every history and every depth
+   limit d >= 1 (C12_mate_in_one_is_played), and for the unlimited search (C12_mate_in_one_is_played_unlimited):
+   if a generated move M of the root mates, the half-move clock is below 99, the mated position is no repetition of a
+   position of the history, and the table never answers for the key of the mated position (NoKey: no entry under that
+   key now; Safe: no position of the search tree that has a legal move carries that key, so none is ever written --
+   the engine never stores a mated node, so such an entry can only come from a 64-bit key collision), then the search
+   answers with a mating move and EVERY reported score is MATE_SCORE - 1.  The table may otherwise hold anything:
+   misleading entries for every other position, wrong mate distances left by earlier searches.  What makes the root robust
+   is proved as a theorem of its own: a value strictly inside the window is honest (C12_value_inside_window_is_honest:
+   between -MATE+ply and MATE-ply-1, and equal to -MATE+ply only at a node that IS mated) -- table cut-offs happen at
+   zero-window nodes only, and a zero-window result that matters is searched again with an open window.
+   The premise on the key cannot be dropped: C12_misleading_entry_under_the_mated_key is a run of the model on
+   6k1/5ppp/8/8/8/8/8/R3K3 w with ONE bounded entry under the mated position's key, where the mate Ra8 is not found.
+   (Property text: "whatever the transposition table contains" -- true of every table the engine itself can have
+   produced, barring a key collision; false of an arbitrary foreign table.)
+   Also: a node without legal moves returns -MATE_SCORE + ply when in check and the draw score otherwise, whatever
+   window, depth and table. *)
 From Coq Require Import NArith ZArith List Bool.
-From Rawr Require Import Consts Bits Magic Position MoveGen MakeMove Eval TT Search SearchFacts2.
+From Rawr Require Import Consts Bits Magic Position MoveGen MakeMove Eval TT Search SearchFacts2 EpRetro SearchBound WindowHonest MateInOne.
 Import ListNotations.
 Local Open Scope Z_scope.
 
@@ -20,5 +33,55 @@ Theorem C12_no_null_move_in_check : forall rec p s is_root cn beta ply depth,
   null_move rec p s is_root cn true beta ply depth = Some (None, s).
 Proof. exact no_null_move_in_check. Qed.
 
+Theorem C12_value_inside_window_is_honest : forall (stopf : Stats -> bool) fuel plymax, plymax <= 599998 ->
+  forall q s a b pl d cn v s', InvSR q -> TBnd (ss_tt s) -> 0 <= pl -> pl + Z.of_nat fuel <= plymax ->
+  negamax stopf fuel q s a b pl d cn = Some (v, s') -> a < v < b ->
+  - MATE_SCORE + pl <= v <= MATE_SCORE - pl - 1 /\ (v = - MATE_SCORE + pl -> legal_moves q = [] /\ in_check q = true).
+Proof. exact negamax_whon. Qed.
+
+Theorem C12_mate_in_one_is_played : forall d fuel p hist tt r M,
+  InvSR p -> TBnd tt -> Z.of_nat fuel <= 599998 -> halfmoves p < 99 ->
+  In M (legal_moves p) -> mates p M ->
+  NoRep (makemove true p M) (hash (makemove true p M) :: hist) ->
+  NoKey (hash (makemove true p M)) tt -> Safe (hash (makemove true p M)) p -> 1 <= d ->
+  root (stop_of (LDepth d)) fuel p hist tt = Some r ->
+  (exists bm, rr_best r = Some bm /\ In bm (legal_moves p) /\ mates p bm) /\
+  (forall i, In i (rr_infos r) -> i_score i = MATE_SCORE - 1) /\ rr_infos r <> [].
+Proof. exact mate_in_one_is_played. Qed.
+
+Theorem C12_mate_in_one_is_played_unlimited : forall fuel p hist tt r M,
+  InvSR p -> TBnd tt -> Z.of_nat fuel <= 599998 -> halfmoves p < 99 ->
+  In M (legal_moves p) -> mates p M ->
+  NoRep (makemove true p M) (hash (makemove true p M) :: hist) ->
+  NoKey (hash (makemove true p M)) tt -> Safe (hash (makemove true p M)) p ->
+  root (stop_of LNever) fuel p hist tt = Some r ->
+  (exists bm, rr_best r = Some bm /\ In bm (legal_moves p) /\ mates p bm) /\
+  (forall i, In i (rr_infos r) -> i_score i = MATE_SCORE - 1) /\ rr_infos r <> [].
+Proof. exact mate_in_one_is_played_unlimited. Qed.
+
+(* non-vacuity: every computable premise holds of 6k1/5ppp/8/8/8/8/8/R3K3 w - - 0 1 with Ra8, a new table, the history
+   of a game that starts there; and the model's run on it reports 999999 three times and answers a1a8 *)
+Theorem C12_premises_hold_somewhere :
+  InvSR ex_pos /\ halfmoves ex_pos < 99 /\ In ex_M (legal_moves ex_pos) /\ mates ex_pos ex_M
+  /\ ~ In ex_k [hash ex_pos] /\ NoKey ex_k (tt_new 1).
+Proof. exact ex_premises. Qed.
+Theorem C12_example_run :
+  ex_show (root (stop_of (LDepth 3)) 50 ex_pos [hash ex_pos] (tt_new 1))
+  = (Some ex_M, [(1, 999999); (2, 999999); (3, 999999)]).
+Proof. exact ex_run. Qed.
+
+(* the premise on the key is needed: one bounded entry under the mated position's key hides the mate *)
+Theorem C12_misleading_entry_under_the_mated_key :
+  TBnd ex_poisoned /\
+  ex_show (root (stop_of (LDepth 3)) 50 ex_pos [hash ex_pos] ex_poisoned)
+  = (Some (mkMv 0 48 NOPIECE), [(1, 265); (2, 237); (3, 252)]).
+Proof. exact (conj ex_poisoned_TBnd ex_poisoned_run). Qed.
+
 Print Assumptions C12_no_legal_moves_value.
 Print Assumptions C12_no_null_move_in_check.
+Print Assumptions C12_value_inside_window_is_honest.
+Print Assumptions C12_mate_in_one_is_played.
+Print Assumptions C12_mate_in_one_is_played_unlimited.
+Print Assumptions C12_premises_hold_somewhere.
+Print Assumptions C12_example_run.
+Print Assumptions C12_misleading_entry_under_the_mated_key.
